@@ -627,12 +627,80 @@ Lemma io_ab : io_mode_ok m_ab = true. Proof. reflexivity. Qed.
 (* ------------------------------------------------------------------ *)
 (* the statement proved per call                                       *)
 (* ------------------------------------------------------------------ *)
-(* modes that fs.mode.Mode accepts but io.open refuses are outside the theorem (finding) *)
+(* the mode of an open call is one io.open accepts, or one fs.mode.Mode refuses itself.  Until /repo af07be9
+   Mode accepted "rw", "rbb", ... which io.open refuses from inside OSFS.openbin (a finding; the theorems carried
+   [os_mode_ok o = true] as a hypothesis); since then Mode.validate makes the same demands as io.open and the
+   condition holds for every call: os_mode_ok_always *)
 Definition os_mode_ok (o : op) : bool :=
   match o with
   | OOpenwrite _ m _ | OOpenread _ m => negb (mode_valid_bin m) || io_mode_ok m
   | _ => true
   end.
+
+(* ------------------------------------------------------------------ *)
+(* every mode fs.mode.Mode accepts is one io.open accepts (/repo af07be9) *)
+(* ------------------------------------------------------------------ *)
+Lemma count_c_cons c x r : count_c c (x :: r) = (if ceqb c x then 1 else 0) + count_c c r.
+Proof. unfold count_c. cbn [filter]. destruct (ceqb c x); reflexivity. Qed.
+
+Lemma count_c_zero_has c m : count_c c m = 0 -> has_char c m = false.
+Proof.
+  induction m as [|x r IH]; [reflexivity|]. rewrite count_c_cons. unfold has_char. cbn [existsb].
+  destruct (ceqb c x); [discriminate|]. exact IH.
+Qed.
+
+Lemma has_char_count c m : has_char c m = negb (Nat.eqb (count_c c m) 0).
+Proof.
+  induction m as [|x r IH]; [reflexivity|]. rewrite count_c_cons. unfold has_char in *. cbn [existsb].
+  destruct (ceqb c x); [reflexivity|]. exact IH.
+Qed.
+
+Lemma nodup_of_counts m : (forall c, count_c c m <= 1) -> nodup_chars m = true.
+Proof.
+  induction m as [|x r IH]; intro H; [reflexivity|]. cbn [nodup_chars].
+  assert (Hx : count_c x r = 0).
+  { specialize (H x). rewrite count_c_cons in H. unfold ceqb in H. rewrite N.eqb_refl in H. lia. }
+  rewrite (count_c_zero_has _ _ Hx). cbn [negb andb]. apply IH.
+  intro c. specialize (H c). rewrite count_c_cons in H. lia.
+Qed.
+
+Lemma count_c_outside c m : forallb (fun x => inb x mode_chars) m = true -> inb c mode_chars = false ->
+  count_c c m = 0.
+Proof.
+  induction m as [|x r IH]; intros H Hc; [reflexivity|]. cbn [forallb] in H.
+  apply andb_true_iff in H as [Hx Hr]. rewrite count_c_cons, (IH Hr Hc).
+  destruct (ceqb c x) eqn:E; [|reflexivity].
+  unfold ceqb in E. apply N.eqb_eq in E. subst x. congruence.
+Qed.
+
+Lemma mode_valid_io m : mode_valid m = true -> io_mode_ok m = true.
+Proof.
+  unfold mode_valid. destruct m as [|c0 r]; [discriminate|]. set (m := c0 :: r).
+  intro H. repeat (apply andb_true_iff in H as [H ?]).
+  match goal with X : Nat.eqb _ 1 = true |- _ => apply Nat.eqb_eq in X; rename X into Sum end.
+  repeat match goal with X : Nat.leb _ 1 = true |- _ => apply Nat.leb_le in X end.
+  assert (F : forallb (fun x => inb x mode_chars) m = true).
+  { subst m. cbn [forallb]. apply andb_true_iff. split; assumption. }
+  unfold io_mode_ok. apply andb_true_iff. split.
+  - apply nodup_of_counts. intro c. destruct (inb c mode_chars) eqn:Ic.
+    + unfold inb, mode_chars in Ic. cbn [existsb] in Ic. unfold ceqb in Ic.
+      repeat (apply orb_true_iff in Ic as [Ic|Ic]; [apply N.eqb_eq in Ic; subst c; lia|]).
+      discriminate.
+    + rewrite (count_c_outside c m); [lia|exact F|assumption].
+  - unfold count_true. rewrite !has_char_count. cbn [filter].
+    destruct (count_c ch_r m) as [|[|?]], (count_c ch_w m) as [|[|?]], (count_c ch_x m) as [|[|?]],
+      (count_c ch_a m) as [|[|?]]; cbn in Sum; try lia; reflexivity.
+Qed.
+
+Lemma mode_valid_bin_io m : mode_valid_bin m = true -> io_mode_ok m = true.
+Proof. unfold mode_valid_bin. intro H. apply andb_true_iff in H as [H _]. now apply mode_valid_io. Qed.
+
+Lemma os_mode_ok_always o : os_mode_ok o = true.
+Proof.
+  destruct o; try reflexivity; cbn [os_mode_ok];
+    match goal with |- negb (mode_valid_bin ?m) || _ = true => destruct (mode_valid_bin m) eqn:V end;
+    try reflexivity; cbn [negb orb]; now apply mode_valid_bin_io.
+Qed.
 
 Definition nonempty (d : bytes) : bool := match d with [] => false | _ => true end.
 
@@ -2071,9 +2139,9 @@ Local Open Scope list_scope.
 (* all covered calls                                                   *)
 (* ------------------------------------------------------------------ *)
 Lemma os_step_covered o s :
-  wf s -> nn s -> covered o = true -> os_mode_ok o = true -> step_ok_os o s.
+  wf s -> nn s -> covered o = true -> step_ok_os o s.
 Proof.
-  intros W N C I. destruct o; try discriminate C.
+  intros W N C. pose proof (os_mode_ok_always o) as I. destruct o; try discriminate C.
   - now apply os_step_getinfo.
   - now apply os_step_listdir.
   - now apply os_step_scandir.
@@ -2114,10 +2182,11 @@ Proof.
   - repeat constructor; try discriminate.
 Qed.
 
-(* (1) a mode string fs.mode.Mode accepts and io.open refuses ("rw"): OSFS.openbin raises ValueError from
-       inside io.open, MemoryFS and the reference perform the call.  Confirmed on the real OSFS. *)
-(* Since /repo af07be9 fs.mode.Mode refuses such modes itself (FS/Mode.v mode_valid), so every backend and the
-   reference answer ValueError alike: the former counterexample now agrees. *)
+(* (1) [historical] a mode string fs.mode.Mode accepted and io.open refuses ("rw"): OSFS.openbin raised ValueError from
+       inside io.open where MemoryFS and the reference performed the call (confirmed on the real OSFS at the time).
+   Since /repo af07be9 fs.mode.Mode refuses such modes itself (FS/Mode.v mode_valid), so every backend and the
+   reference answer ValueError alike: the former counterexample now agrees, and no condition on modes is left
+   (os_mode_ok_always). *)
 Example osfs_refines_ref_iomode_now_agrees :
   let o := OOpenwrite (lit "f") (lit "rw") (lit "XY") in
   covered o = true /\ os_mode_ok o = true /\
@@ -2153,50 +2222,46 @@ Proof. vm_compute. repeat split. Qed.
    was repaired in /repo b9cf049 to validate its argument first: os_removetree_nul_backref_rejected.) *)
 
 (* STATEMENT CHANGED: (a) the trees are compared up to modification times (counterexamples (2); the exact
-   comparison holds for the calls with [os_times_exact], next theorem); (b) [os_mode_ok o]: the mode string of an
-   open call is one io.open accepts, or is invalid for fs.mode.Mode too (counterexample (1), a finding);
-   (c) [nn s]: no name of the tree contains NUL (counterexample (3); an invariant of every reachable state,
-   preserved below). *)
+   comparison holds for the calls with [os_times_exact], next theorem); (b) [nn s]: no name of the tree contains
+   NUL (counterexample (3); an invariant of every reachable state, preserved below).  The two conditions on the
+   arguments that earlier versions carried (open modes, removetree paths) disappeared with the repairs of /repo
+   af07be9 and b9cf049. *)
 Theorem osfs_refines_ref : forall o s,
-  wf s -> nn s -> covered o = true -> os_mode_ok o = true ->
+  wf s -> nn s -> covered o = true ->
   agree_nt (osfs_run o s) (ref_run o s) = true.
 Proof.
-  intros o s W N C I. destruct (os_step_covered o s W N C I) as [A _].
+  intros o s W N C. destruct (os_step_covered o s W N C) as [A _].
   unfold agree_nt. destruct (os_times_exact o); [now apply agree_tm_weaken|exact A].
 Qed.
 
 Theorem osfs_refines_ref_times : forall o s,
-  wf s -> nn s -> covered o = true -> os_mode_ok o = true -> os_times_exact o = true ->
+  wf s -> nn s -> covered o = true -> os_times_exact o = true ->
   agree (osfs_run o s) (ref_run o s) = true.
 Proof.
-  intros o s W N C I T. destruct (os_step_covered o s W N C I) as [A _].
+  intros o s W N C T. destruct (os_step_covered o s W N C) as [A _].
   rewrite T in A. now rewrite <- agree_tm_true.
 Qed.
 
 Theorem osfs_wf_preserved : forall o s,
   wf s -> nn s -> covered o = true -> wf (fst (osfs_run o s)).
 Proof.
-  intros o s W N C. destruct (os_mode_ok o) eqn:I.
-  - now destruct (os_step_covered o s W N C I).
-  - now rewrite (osfs_iobad_state o s I).
+  intros o s W N C. now destruct (os_step_covered o s W N C).
 Qed.
 
 Theorem osfs_nn_preserved : forall o s,
   wf s -> nn s -> covered o = true -> nn (fst (osfs_run o s)).
 Proof.
-  intros o s W N C. destruct (os_mode_ok o) eqn:I.
-  - pose proof (osfs_refines_ref o s W N C I) as A.
-    destruct (ref_nn o s N C) as (tr & T & Ntr).
-    unfold agree_nt, agree_tm in A. rewrite T in A. apply andb_true_iff in A as [_ A].
-    exact (nn_tree_eqb_any _ _ _ A Ntr).
-  - now rewrite (osfs_iobad_state o s I).
+  intros o s W N C. pose proof (osfs_refines_ref o s W N C) as A.
+  destruct (ref_nn o s N C) as (tr & T & Ntr).
+  unfold agree_nt, agree_tm in A. rewrite T in A. apply andb_true_iff in A as [_ A].
+  exact (nn_tree_eqb_any _ _ _ A Ntr).
 Qed.
 
 (* the empty directory an OSFS history starts from *)
 Theorem osfs_initial : wf empty_dir /\ nn empty_dir.
 Proof. split; [exact wf_empty|exact nn_initial]. Qed.
 
-(* every state reachable by covered, io-acceptable calls is well formed and NUL-free, and every call of
+(* every state reachable by covered calls is well formed and NUL-free, and every call of
    such a history agrees with the reference *)
 Fixpoint os_hist_ok (s : node) (ops : list op) : Prop :=
   match ops with
@@ -2205,10 +2270,10 @@ Fixpoint os_hist_ok (s : node) (ops : list op) : Prop :=
   end.
 
 Theorem osfs_history_refines : forall ops s,
-  wf s -> nn s -> forallb (fun o => covered o && os_mode_ok o) ops = true -> os_hist_ok s ops.
+  wf s -> nn s -> forallb covered ops = true -> os_hist_ok s ops.
 Proof.
   induction ops as [|o r IH]; intros s W N H; [exact I|].
-  cbn [forallb] in H. apply andb_true_iff in H as [Ho Hr]. apply andb_true_iff in Ho as [C M].
+  cbn [forallb] in H. apply andb_true_iff in H as [C Hr].
   split; [now apply osfs_refines_ref|].
   apply IH; [now apply osfs_wf_preserved|now apply osfs_nn_preserved|exact Hr].
 Qed.
@@ -2217,13 +2282,13 @@ Qed.
    the same verdict (success / fs.errors class / ValueError), an error class from the same admissible set, and
    the same resulting tree up to modification times *)
 Theorem osfs_mem_same_verdict : forall o s,
-  wf s -> nn s -> covered o = true -> os_mode_ok o = true ->
+  wf s -> nn s -> covered o = true ->
   agree_nt (osfs_run o s) (ref_run o s) = true /\ agree (mem_run o s) (ref_run o s) = true /\
   verdict (snd (osfs_run o s)) = verdict (snd (mem_run o s)) /\
   tree_eqb false (fst (osfs_run o s)) (fst (mem_run o s)) = true.
 Proof.
-  intros o s W N C I.
-  pose proof (osfs_refines_ref o s W N C I) as A. pose proof (mem_refines_ref o s W C) as B.
+  intros o s W N C.
+  pose proof (osfs_refines_ref o s W N C) as A. pose proof (mem_refines_ref o s W C) as B.
   split; [exact A|]. split; [exact B|].
   pose proof (ref_not_any o s C) as NA.
   destruct (ref_nn o s N C) as (tr & T & _).
